@@ -90,6 +90,10 @@ pub struct AllocScenario {
     pub sessions: usize,
     pub names: usize,
     pub ops: Vec<Op>,
+    /// Allocations every simulated thread makes from a thread-local destructor while it exits (0 = none; absent in
+    /// replay files written before this existed).
+    #[serde(default)]
+    pub teardown: u32,
 }
 
 // ------------------------------------------------------------------------------------------------
@@ -256,6 +260,11 @@ impl AllocScenario {
             };
             ops.push(op);
         }
+        // Drawn last, so that everything above is what it was before this existed.
+        let teardown = match rng.weighted(&[1, 3]) {
+            0 => 0,
+            _ => rng.range(1, 3) as u32,
+        };
         Self {
             installed: cfg.installed,
             faulty: cfg.faulty,
@@ -263,6 +272,7 @@ impl AllocScenario {
             sessions,
             names,
             ops,
+            teardown,
         }
     }
 }
@@ -1286,6 +1296,10 @@ impl World<'_> {
             }
         }
         self.threads.exit(th)?;
+        if LOG.len() > now && self.spans.iter().any(|s| s.kind == SpanKind::Process) {
+            // The exiting thread allocated from a thread-local destructor inside an open process span.
+            ctx.probe("teardown-allocation-inside-process-span");
+        }
         self.alive[th] = false;
         let what = format!("op {i}: thread {th} exits");
         ctx.event(mix(15, th as u64), || what.clone());
@@ -1512,6 +1526,7 @@ impl Scenario for AllocScenario {
         set_tid(MAIN_TID);
         LOG.reset();
         let _ = simalloc::take_mismatch();
+        crate::threads::TEARDOWN_ALLOCS.store(self.teardown.min(8), Ordering::Relaxed);
         let threads = Threads::new(self.installed, n_threads);
         let startup_window = (0, LOG.len());
         let mut w = World {
@@ -1621,6 +1636,9 @@ impl Scenario for AllocScenario {
             .into_iter()
             .map(|ops| Self { ops, ..self.clone() })
             .collect();
+        if self.teardown > 0 {
+            out.push(Self { teardown: 0, ..self.clone() });
+        }
         if self.threads > 1 {
             out.push(Self { threads: 1, ..self.clone() });
             out.push(Self { threads: self.threads - 1, ..self.clone() });
